@@ -242,7 +242,7 @@ package pq
 //@   requires typeis(h, "*pqHeap") && hpOf(h) != nil && okRep(*hpOf(h))
 //@   requires 0 <= i && i < len(hpOf(h).a)
 //@   ensures len(hpOf(h).a) == old(len(hpOf(h).a)) && okRep(*hpOf(h))
-//@   ensures [#order] swo(hpOf(h).less) && old(exceptDownN(*hpOf(h), i, len(hpOf(h).a)) && heapExceptN(*hpOf(h), i, len(hpOf(h).a)) && kidsOKn(*hpOf(h), i, len(hpOf(h).a))) ==> heapOKn(*hpOf(h), len(hpOf(h).a))
+//@   ensures [#order] swo(hpOf(h).less) && old(exceptDownN(*hpOf(h), i, len(hpOf(h).a)) && kidsOKn(*hpOf(h), i, len(hpOf(h).a))) ==> heapOKn(*hpOf(h), len(hpOf(h).a))
 //@   ensures [#fwd] forall y any :: member(*hpOf(h), y) ==> old(member(*hpOf(h), y))
 //@   ensures [#bwd] forall y any :: old(member(*hpOf(h), y)) ==> member(*hpOf(h), y)
 //@   ensures hpOf(h).less == old(hpOf(h).less) && hpOf(h).setIndex == old(hpOf(h).setIndex)
@@ -298,8 +298,9 @@ package pq
 //@   ensures len(pq.heap.a) == old(len(pq.heap.a)) && (pq.heap.setIndex != nil ==> distinct(pq.heap)) && idxOK(pq.heap)
 //@   ensures forall y any :: old(member(pq.heap, y)) <==> member(pq.heap, y)
 //@   // the order is restored whichever element it is (also the last one): if
-//@   // only the element at index is out of place, the heap is ordered afterwards
-//@   ensures [#order] swo(pq.heap.less) && old(exceptDownN(pq.heap, index, len(pq.heap.a)) && heapExceptN(pq.heap, index, len(pq.heap.a)) && kidsOKn(pq.heap, index, len(pq.heap.a))) ==> heapOKn(pq.heap, len(pq.heap.a))
+//@   // only the element at index is out of place (too small for its parent or
+//@   // too large for its children), the heap is ordered afterwards
+//@   ensures [#order] swo(pq.heap.less) && old(exceptDownN(pq.heap, index, len(pq.heap.a)) && kidsOKn(pq.heap, index, len(pq.heap.a))) ==> heapOKn(pq.heap, len(pq.heap.a))
 //@   modifies elems(pq.heap.a)
 //@   props C20
 //@
